@@ -8,8 +8,18 @@ MANIFEST_ENTRY = dict(
     technique="TLC model checking of spec/MCWallet.tla (Fork/Restore/Scan/Diverge actions) + TLC-generated behaviours replayed on the real code and chain + TLC trace validation (spec/TraceWallet.tla) against the real chain's UTXO set",
     note=WALLET_NOTE)
 
-PARAMS = dict(quick_cfgs=['MC_C18_quick.cfg', 'MC_C18_self.cfg'], thorough_cfgs=['MC_C18.cfg', 'MC_C18_self.cfg'], quick_n=60, thorough_n=500, focus=['Reverted'],
-              setup={"nfund": 1, "pad": 3, "fault_scans": 4}, assumptions=WALLET_ASSUME, extra_behaviours=[])
+PARAMS = dict(quick_cfgs=['MC_C18_quick.cfg', 'MC_C18_selfq.cfg'], thorough_cfgs=['MC_C18.cfg', 'MC_C18_self.cfg', 'MC_C18_selfq.cfg'], quick_n=60, thorough_n=500, focus=['Reverted'],
+              setup={"nfund": 1, "pad": 3, "fault_scans": 4}, assumptions=WALLET_ASSUME, extra_behaviours=[
+    # directed: the recipient has TWO accounts whose logs both hold an entry with the same id (ids are per account);
+    # the payment into the first one is confirmed, reorganised away, found reverted by a scan, mined again
+    [{"ev": "setup", "nfund": 2}, {"ev": "create_account", "w": "w2", "label": "acct1"},
+     {"ev": "init_send", "w": "w1", "sl": "s1", "amt": 1000}, {"ev": "lock", "w": "w1", "sl": "s1", "stage": "S1"},
+     {"ev": "receive", "w": "w2", "sl": "s1", "dest": ""}, {"ev": "finalize", "w": "w1", "sl": "s1", "stage": "S2"},
+     {"ev": "init_send", "w": "w1", "sl": "s2", "amt": 1000}, {"ev": "receive", "w": "w2", "sl": "s2", "dest": "acct1"},
+     {"ev": "post", "sl": "s1"}, {"ev": "mine", "to": "", "txs": ["s1"]}, {"ev": "refresh", "w": "w2"},
+     {"ev": "fork", "depth": 1, "keep": []}, {"ev": "scan", "w": "w2", "start": 1, "del": False},
+     {"ev": "refresh", "w": "w2"}, {"ev": "mine", "to": "", "txs": ["s1"]}, {"ev": "refresh", "w": "w2"},
+     {"ev": "scan", "w": "w2", "start": 1, "del": False}]])
 
 
 def run(tier, replay_path, t0):
